@@ -336,6 +336,14 @@ theorem updKinds_absent {typ ver : String} {ign : Bool} {es : List (String × Up
   · simp [hs]
 
 
+/-- watchResource either fails at once (no channel and the first server's transport cannot be created) or is
+    `watch` -/
+theorem watchResource_cases (a : Auth) (k : Key) (w : Nat) :
+    (cannotStart a = true ∧ watchResource a k w = { auth := a, cbs := [⟨w, .resErr .other⟩] }) ∨
+    (cannotStart a = false ∧ watchResource a k w = watch a k w) := by
+  unfold watchResource
+  cases h : cannotStart a <;> simp
+
 theorem sameCore_fields {q p : Key × RState} (h : SameCore q p) :
     q.1 = p.1 ∧ q.2.watchers = p.2.watchers ∧ q.2.cache = p.2.cache ∧ q.2.status = p.2.status ∧ q.2.err = p.2.err := by
   obtain ⟨x, rfl⟩ := h; exact ⟨rfl, rfl, rfl, rfl, rfl⟩
@@ -412,9 +420,13 @@ theorem cache_step {a : Auth} {e : AEv} {p' : Key × RState} {c : String}
           obtain ⟨p, hpa, rfl⟩ := hp
           exact ⟨p, hpa, rfl, hc⟩
         · exact ⟨p', hp, rfl, hc⟩
+  | env l => right; exact ⟨p', hp, rfl, hc⟩
   | watch k w =>
     right
-    simp only [Auth.step, watch] at hp
+    simp only [Auth.step] at hp
+    rcases watchResource_cases a k w with ⟨_, hwr⟩ | ⟨_, hwr⟩ <;> rw [hwr] at hp
+    · exact ⟨p', hp, rfl, hc⟩
+    simp only [watch] at hp
     split at hp
     · simp only [List.mem_append, List.mem_singleton] at hp
       rcases hp with hp | rfl
@@ -515,8 +527,12 @@ theorem changed_step {a : Auth} {e : AEv} {w : Nat} {c : String}
           obtain ⟨p, _, _, hk⟩ := h
           simp only [List.mem_singleton] at hk
           split at hk <;> simp at hk
+  | env l => simp [Auth.step] at h
   | watch k w' =>
-    simp only [Auth.step, watch] at h ⊢
+    simp only [Auth.step] at h ⊢
+    rcases watchResource_cases a k w' with ⟨_, hwr⟩ | ⟨_, hwr⟩ <;> rw [hwr] at h ⊢
+    · simp at h
+    simp only [watch] at h ⊢
     split at h
     · simp [initialCbs, initialKinds, newRState] at h
     · rename_i r hl
@@ -794,9 +810,13 @@ theorem inv_step {a : Auth} {e : AEv} (hi : AInv a) (hf : Fresh a e) : AInv (a.s
           · intro p; rfl
           · intro p hp; exact ⟨(hi.rinv p hp).1, (hi.rinv p hp).2, (hi.rinv p hp).3, (hi.rinv p hp).4⟩
         · exact hi
+  | env l => exact ⟨hi.keys, hi.wnd, hi.rinv⟩
   | watch k w =>
     simp only [Fresh] at hf
-    simp only [Auth.step, watch]
+    simp only [Auth.step]
+    rcases watchResource_cases a k w with ⟨_, hwr⟩ | ⟨_, hwr⟩ <;> rw [hwr]
+    · exact hi
+    simp only [watch]
     split
     · rename_i hl
       constructor
@@ -1091,9 +1111,28 @@ theorem ghost_step {a : Auth} {G : Nat → WG} {e : AEv} (hi : AInv a) (hg : Agr
           obtain ⟨p, hp, rfl⟩ := hp'
           exact hg p hp w hw
         · exact hprop'
+  | env l => exact ⟨fun w => rfl, fun p hp w hw => hg p hp w hw⟩
   | watch k w' =>
     simp only [Fresh] at hf
-    simp only [Auth.step, watch]
+    simp only [Auth.step]
+    rcases watchResource_cases a k w' with ⟨_, hwr⟩ | ⟨_, hwr⟩ <;> rw [hwr]
+    · -- the watch failed: the watcher is told the error and is not registered
+      have hcb : ∀ w, cbsFor w [(⟨w', .resErr .other⟩ : Cb)] = if w' = w then [.resErr .other] else [] := by
+        intro w
+        by_cases h : w' = w
+        · subst h; simp [cbsFor]
+        · simp [cbsFor, h]
+      constructor
+      · intro w
+        rw [hcb]
+        by_cases h : w' = w
+        · simp [ghost0, h, okSeq, WG.dup]
+        · simp only [h, ↓reduceIte]; rfl
+      · intro p hp w hw
+        have hne : ¬ w' = w := by intro h; subst h; exact hf p hp hw
+        simp only [ghostStep, ghost0, hcb, hne, ↓reduceIte, List.foldl_nil]
+        exact hg p hp w hw
+    simp only [watch]
     split
     · rename_i hl
       have hnil : initialCbs w' (newRState w' (channelToUse a).2.2) = [] := by
@@ -1316,7 +1355,8 @@ theorem mem_initialKinds_res {r : RState} {er : Err} :
     rw [h.1]
 
 /-- after a ResourceError the watcher's resource has no cached value; after an AmbientError it still has -/
-theorem error_step {a : Auth} {e : AEv} {w : Nat} {er : Err} (hi : AInv a) :
+theorem error_step {a : Auth} {e : AEv} {w : Nat} {er : Err} (hi : AInv a)
+    (hns : ∀ k w', e = .watch k w' → cannotStart a = false) :
     ((⟨w, .resErr er⟩ : Cb) ∈ (a.step e).cbs → ∃ p' ∈ (a.step e).auth.res, w ∈ p'.2.watchers ∧ p'.2.cache = none) ∧
     ((⟨w, .ambErr er⟩ : Cb) ∈ (a.step e).cbs → ∃ p' ∈ (a.step e).auth.res, w ∈ p'.2.watchers ∧ p'.2.cache.isSome = true) := by
   cases e with
@@ -1391,8 +1431,13 @@ theorem error_step {a : Auth} {e : AEv} {w : Nat} {er : Err} (hi : AInv a) :
         obtain ⟨p, hp, hw, hcache, _⟩ := amb_mem_propagate.mp h
         exact ⟨p, hp, hw, hcache⟩
       · simp at h
+  | env l => simp [Auth.step]
   | watch k w' =>
-    simp only [Auth.step, watch]
+    simp only [Auth.step]
+    rcases watchResource_cases a k w' with ⟨hcs, _⟩ | ⟨_, hwr⟩
+    · rw [hns k w' rfl] at hcs; simp at hcs
+    rw [hwr]
+    simp only [watch]
     split
     · simp [initialCbs, initialKinds, newRState]
     · rename_i r hl
@@ -1452,8 +1497,12 @@ theorem watched_step {a : Auth} {e : AEv} (hi : AInv a) (hw : Watched a) : Watch
           obtain ⟨p, hp, rfl⟩ := hp'
           exact hw p hp
         · exact hw
+  | env l => exact hw
   | watch k w =>
-    simp only [Auth.step, watch]
+    simp only [Auth.step]
+    rcases watchResource_cases a k w with ⟨_, hwr⟩ | ⟨_, hwr⟩ <;> rw [hwr]
+    · exact hw
+    simp only [watch]
     split
     · intro p' hp'
       simp only [List.mem_append, List.mem_singleton] at hp'
@@ -1593,7 +1642,14 @@ theorem mem_nextServer {a : Auth} {srv i : Nat} (h : nextServer a srv = some i) 
   have := List.mem_of_mem_head? h
   simp only [List.mem_filter, List.mem_range, Bool.and_eq_true, decide_eq_true_eq, Bool.not_eq_true',
     List.contains_eq_mem, decide_eq_false_iff_not] at this
-  exact ⟨this.2.1, this.1, this.2.2⟩
+  exact ⟨this.2.1.1, this.1, this.2.1.2⟩
+
+theorem nextServer_buildable {a : Auth} {srv i : Nat} (h : nextServer a srv = some i) : i ∉ a.nobuild := by
+  unfold nextServer at h
+  have := List.mem_of_mem_head? h
+  simp only [List.mem_filter, List.mem_range, Bool.and_eq_true, decide_eq_true_eq, Bool.not_eq_true',
+    List.contains_eq_mem, decide_eq_false_iff_not] at this
+  exact this.2.2
 
 theorem fallbackTarget_some {a : Auth} {srv j : Nat} (h : fallbackTarget a srv = some j) :
     a.active = some srv ∧ nextServer a srv = some j := by
@@ -1670,8 +1726,12 @@ theorem bounded_step {a : Auth} {e : AEv} (hb : Bounded a) : Bounded (a.step e).
             · exact hb.chans p hp j hj
             · exact hi.2.1
         · exact hb
+  | env l => exact ⟨hb.pos, hb.act, hb.chans⟩
   | watch k w =>
-    simp only [Auth.step, watch]
+    simp only [Auth.step]
+    rcases watchResource_cases a k w with ⟨_, hwr⟩ | ⟨_, hwr⟩ <;> rw [hwr]
+    · exact hb
+    simp only [watch]
     have hcu : (channelToUse a).1.n = a.n ∧ (channelToUse a).2.2 < a.n ∧
         (∀ i, (channelToUse a).1.active = some i → i < a.n) := by
       unfold channelToUse
@@ -1805,8 +1865,12 @@ theorem ledger_step {a : Auth} {e : AEv} {L : List (Nat × Key)} (hi : AInv a) (
             · exact Or.inl ⟨p.2, hp, hic⟩
             · exact Or.inr ⟨_, ⟨p, hp, rfl⟩, rfl⟩
         · exact hl
+  | env l => exact hl
   | watch k' w =>
-    simp only [Auth.step, watch]
+    simp only [Auth.step]
+    rcases watchResource_cases a k' w with ⟨_, hwr⟩ | ⟨_, hwr⟩ <;> rw [hwr]
+    · exact hl
+    simp only [watch]
     have hcu : ∀ c ∈ (channelToUse a).2.1, isAdd c ∧ ∀ x, ¬ adds c x := by
       intro c hc
       unfold channelToUse at hc
@@ -1945,29 +2009,29 @@ theorem head_filter_le (l : List Nat) (hl : l.Pairwise (· < ·)) (f : Nat → B
 
 /-- `nextServer` returns the FIRST server after `srv` without a channel -/
 theorem nextServer_between {a : Auth} {srv j : Nat} (hn : nextServer a srv = some j) (x : Nat)
-    (hx1 : srv < x) (hx2 : x < j) : x ∈ a.opened := by
+    (hx1 : srv < x) (hx2 : x < j) : x ∈ a.opened ∨ x ∈ a.nobuild := by
   have hm := mem_nextServer hn
   unfold nextServer at hn
-  rcases Classical.em (x ∈ a.opened) with h | h
+  rcases Classical.em (x ∈ a.opened ∨ x ∈ a.nobuild) with h | h
   · exact h
   · exfalso
-    have hxmem : x ∈ (List.range a.n).filter fun i => decide (srv < i) && !a.opened.contains i := by
+    have hxmem : x ∈ (List.range a.n).filter fun i => decide (srv < i) && !a.opened.contains i && !a.nobuild.contains i := by
       simp only [List.mem_filter, List.mem_range, Bool.and_eq_true, decide_eq_true_eq, Bool.not_eq_true',
         List.contains_eq_mem, decide_eq_false_iff_not]
-      exact ⟨by omega, hx1, h⟩
+      exact ⟨by omega, ⟨hx1, fun h1 => h (Or.inl h1)⟩, fun h2 => h (Or.inr h2)⟩
     have := head_filter_le (List.range a.n) List.pairwise_lt_range _ j x hn hxmem
     omega
 
 theorem nextServer_none {a : Auth} {srv : Nat} (hn : nextServer a srv = none) (x : Nat) (hx1 : srv < x) (hx2 : x < a.n) :
-    x ∈ a.opened := by
+    x ∈ a.opened ∨ x ∈ a.nobuild := by
   unfold nextServer at hn
-  rcases Classical.em (x ∈ a.opened) with h | h
+  rcases Classical.em (x ∈ a.opened ∨ x ∈ a.nobuild) with h | h
   · exact h
   · exfalso
-    have hxmem : x ∈ (List.range a.n).filter fun i => decide (srv < i) && !a.opened.contains i := by
+    have hxmem : x ∈ (List.range a.n).filter fun i => decide (srv < i) && !a.opened.contains i && !a.nobuild.contains i := by
       simp only [List.mem_filter, List.mem_range, Bool.and_eq_true, decide_eq_true_eq, Bool.not_eq_true',
         List.contains_eq_mem, decide_eq_false_iff_not]
-      exact ⟨hx2, hx1, h⟩
+      exact ⟨hx2, ⟨hx1, fun h1 => h (Or.inl h1)⟩, fun h2 => h (Or.inr h2)⟩
     rw [List.head?_eq_none_iff] at hn
     rw [hn] at hxmem
     simp at hxmem
@@ -1976,7 +2040,52 @@ theorem nextServer_none {a : Auth} {srv : Nat} (hn : nextServer a srv = none) (x
 def Prefix (a : Auth) : Prop :=
   (a.active = none → a.opened = []) ∧ ∀ act, a.active = some act → ∀ i, i ∈ a.opened ↔ i ≤ act
 
-theorem prefix_step {a : Auth} {e : AEv} (hp : Prefix a) : Prefix (a.step e).auth := by
+/-- no transport creation ever fails: the environment events of the history all say so -/
+def NoBuildFault : AEv → Prop
+  | .env l => l = []
+  | _ => True
+
+theorem handleUpdate_nobuild (a : Auth) (srv : Nat) (typ ver : String) (es : List (String × Upd)) :
+    (handleUpdate a srv typ ver es).auth.nobuild = a.nobuild := by
+  cases hact : a.active with
+  | none => simp [handleUpdate, revert_none hact]
+  | some act =>
+    by_cases h1 : srv = act
+    · subst h1; simp [handleUpdate, revert_same hact, processUpdate_res]
+    · by_cases h2 : act < srv
+      · simp [handleUpdate, revert_below hact h2]
+      · have h3 : srv < act := by omega
+        simp [handleUpdate, revert_above hact h3, processUpdate_res, revertTo]
+
+theorem step_nobuild {a : Auth} {e : AEv} (he : NoBuildFault e) (hnb : a.nobuild = []) :
+    (a.step e).auth.nobuild = [] := by
+  cases e with
+  | update srv gen typ ver es => simp only [Auth.step]; rw [handleUpdate_nobuild]; exact hnb
+  | dne k => exact hnb
+  | failure srv after =>
+    simp only [Auth.step, handleFailure]
+    split
+    · exact hnb
+    · split
+      · exact hnb
+      · split <;> exact hnb
+  | watch k w =>
+    simp only [Auth.step]
+    rcases watchResource_cases a k w with ⟨_, hwr⟩ | ⟨_, hwr⟩ <;> rw [hwr]
+    · exact hnb
+    simp only [watch]
+    have : (channelToUse a).1.nobuild = a.nobuild := by unfold channelToUse; split <;> rfl
+    split <;> (simp only []; rw [this]; exact hnb)
+  | unwatch k w =>
+    simp only [Auth.step, unwatch]
+    split
+    · exact hnb
+    · split
+      · exact hnb
+      · split <;> exact hnb
+  | env l => simp only [NoBuildFault] at he; subst he; rfl
+
+theorem prefix_step {a : Auth} {e : AEv} (hp : Prefix a) (hnb : a.nobuild = []) : Prefix (a.step e).auth := by
   obtain ⟨hp0, hp1⟩ := hp
   cases e with
   | update srv gen typ ver es =>
@@ -2021,6 +2130,8 @@ theorem prefix_step {a : Auth} {e : AEv} (hp : Prefix a) : Prefix (a.step e).aut
               have h1 : ¬ j ≤ act := fun h => hm.2.2 ((hp1 act hact j).mpr h)
               rcases Nat.lt_or_ge (act + 1) j with h2 | h2
               · have := nextServer_between hn (act + 1) (by omega) h2
+                rw [hnb] at this
+                simp only [List.not_mem_nil, or_false] at this
                 have := (hp1 act hact (act + 1)).mp this
                 omega
               · omega
@@ -2039,8 +2150,12 @@ theorem prefix_step {a : Auth} {e : AEv} (hp : Prefix a) : Prefix (a.step e).aut
               · right; omega
               · left; exact this.mpr h2
         · exact ⟨hp0, hp1⟩
+  | env l => exact ⟨hp0, hp1⟩
   | watch k w =>
-    simp only [Auth.step, watch]
+    simp only [Auth.step]
+    rcases watchResource_cases a k w with ⟨_, hwr⟩ | ⟨_, hwr⟩ <;> rw [hwr]
+    · exact ⟨hp0, hp1⟩
+    simp only [watch]
     have hcu : Prefix (channelToUse a).1 := by
       unfold channelToUse
       cases hact : a.active with
@@ -2062,6 +2177,79 @@ theorem prefix_step {a : Auth} {e : AEv} (hp : Prefix a) : Prefix (a.step e).aut
         · exact ⟨by simp, by simp⟩
         · exact ⟨hp0, hp1⟩
 
+
+/-- the authority holds no channel to a server below its active one, and none at all when nothing is active -/
+def NoBelow (a : Auth) : Prop :=
+  (a.active = none → a.opened = []) ∧ ∀ act, a.active = some act → ∀ i ∈ a.opened, i ≤ act
+
+theorem noBelow_step {a : Auth} {e : AEv} (hp : NoBelow a) : NoBelow (a.step e).auth := by
+  obtain ⟨hp0, hp1⟩ := hp
+  cases e with
+  | update srv gen typ ver es =>
+    simp only [Auth.step]
+    cases hact : a.active with
+    | none => simp only [handleUpdate, revert_none hact]; exact ⟨hp0, hp1⟩
+    | some act =>
+      by_cases h1 : srv = act
+      · subst h1
+        simp only [handleUpdate, revert_same hact, ↓reduceIte, processUpdate_res]
+        exact ⟨hp0, hp1⟩
+      · by_cases h2 : act < srv
+        · simp only [handleUpdate, revert_below hact h2]; exact ⟨hp0, hp1⟩
+        · have h3 : srv < act := by omega
+          simp only [handleUpdate, revert_above hact h3, ↓reduceIte, processUpdate_res]
+          refine ⟨by simp [revertTo], ?_⟩
+          intro act' hact'
+          simp only [revertTo, Option.some.injEq] at hact'
+          subst hact'
+          simp only [revertTo, List.mem_filter, decide_eq_true_eq]
+          exact fun i hi => hi.2
+  | dne k => exact ⟨hp0, hp1⟩
+  | failure srv after =>
+    simp only [Auth.step, handleFailure]
+    split
+    · exact ⟨hp0, hp1⟩
+    · split
+      · exact ⟨hp0, hp1⟩
+      · split
+        · rename_i j hn0
+          obtain ⟨hact, hn⟩ := fallbackTarget_some hn0
+          have hm := mem_nextServer hn
+          refine ⟨by simp [fallbackTo], ?_⟩
+          intro act' hact'
+          simp only [fallbackTo, Option.some.injEq] at hact'
+          subst hact'
+          simp only [fallbackTo, List.mem_append, List.mem_singleton]
+          rintro i (hi | rfl)
+          · have := hp1 srv hact i hi; omega
+          · exact Nat.le_refl _
+        · exact ⟨hp0, hp1⟩
+  | env l => exact ⟨hp0, hp1⟩
+  | watch k w =>
+    simp only [Auth.step]
+    rcases watchResource_cases a k w with ⟨_, hwr⟩ | ⟨_, hwr⟩ <;> rw [hwr]
+    · exact ⟨hp0, hp1⟩
+    simp only [watch]
+    have hcu : NoBelow (channelToUse a).1 := by
+      unfold channelToUse
+      cases hact : a.active with
+      | some act => exact ⟨by intro h; simp [hact] at h, by intro act' h; simp only at h; exact hp1 act' h⟩
+      | none =>
+        refine ⟨by simp, ?_⟩
+        intro act' h
+        simp only [Option.some.injEq] at h
+        subst h
+        simp [hp0 hact]
+    split <;> exact hcu
+  | unwatch k w =>
+    simp only [Auth.step, unwatch]
+    split
+    · exact ⟨hp0, hp1⟩
+    · split
+      · exact ⟨hp0, hp1⟩
+      · split
+        · exact ⟨by simp, by simp⟩
+        · exact ⟨hp0, hp1⟩
 
 /-! ### vocabulary of the trace-level theorems of C43 and its induction lemmas -/
 
@@ -2130,6 +2318,17 @@ theorem ledger_run (es : List AEv) (a : Auth) (L : List (Nat × Key)) (hi : AInv
   | nil => exact ⟨hl, hw⟩
   | cons e es ih =>
     exact ih _ _ (inv_step hi hf.1) (bounded_step hb) (watched_step hi hw) (ledger_step hi hb hl) hf.2
+
+
+
+theorem startTimers_keys (now : Nat) (typ : String) (subs : List (Key × WS)) :
+    (startTimers now typ subs).map (·.1) = subs.map (·.1) := by
+  unfold startTimers
+  rw [List.map_map]
+  apply List.map_congr_left
+  intro p _
+  simp only [Function.comp]
+  split <;> rfl
 
 
 end GrpcProofs.Lemmas.XdsAuth
